@@ -337,22 +337,22 @@ theorem infoAll_rk (p : Nat → Bool) : ∀ (ms : List Module) (s : State), RKP 
 theorem ticks_rk (p : Nat → Bool) (s : State) : RKP p s (ticks cfg s) := by
   unfold ticks
   dsimp only
-  have h1 : RKP p s (if (cfg.timing && decide (s.now - s.tTiming > 900)) = true then
+  have h1 : RKP p s (if (cfg.timing && decide (s.now - s.tTiming > cfg.pTiming)) = true then
       { sendTiming cfg s with tTiming := s.now } else s) := by
     split
     · unfold sendTiming; dsimp only
       exact (((rkp_same (s := s) (s' := { s with counts := [], inTraffic := true }) rfl).trans (fwdTop_rk cfg p _ _)).trans
         (rkp_same rfl)).trans (rkp_same rfl)
     · exact RKP.refl p s
-  generalize (if (cfg.timing && decide (s.now - s.tTiming > 900)) = true then
+  generalize (if (cfg.timing && decide (s.now - s.tTiming > cfg.pTiming)) = true then
       { sendTiming cfg s with tTiming := s.now } else s) = s1 at h1 ⊢
-  have h2 : RKP p s1 (if s1.now - s1.tTraffic > 1000 then sendTraffic cfg s1 else s1) := by
+  have h2 : RKP p s1 (if s1.now - s1.tTraffic > cfg.pTraffic then sendTraffic cfg s1 else s1) := by
     split
     · unfold sendTraffic; dsimp only
       exact (((rkp_same (s := s1) (s' := { s1 with inTraffic := true }) rfl).trans (logTop_rk cfg p 10 _)).trans
         (foldl_fwd_rk cfg p _ _)).trans (rkp_same rfl)
     · exact RKP.refl p s1
-  generalize (if s1.now - s1.tTraffic > 1000 then sendTraffic cfg s1 else s1) = s2 at h2 ⊢
+  generalize (if s1.now - s1.tTraffic > cfg.pTraffic then sendTraffic cfg s1 else s1) = s2 at h2 ⊢
   refine (h1.trans h2).trans ?_
   split
   · unfold sendActive; dsimp only
